@@ -2,10 +2,10 @@ SPECIFICATION FairSpec
 CONSTANTS
   Keys = {1, 2}
   MaxChanges = 3
-  MaxFails = 2
+  MaxFails = 1
   MaxOther = 1
   MaxRefresh = 1
-  RoundSize = 1
+  RoundSize = 2
   Batch = FALSE
   MinB = 1
   MaxB = 2
